@@ -1475,7 +1475,11 @@ template <typename To_Policy, typename From_Policy, typename Type>
 inline Result
 smod_2exp_unsigned_int(Type& to, const Type x, unsigned int exp,
                        Rounding_Dir dir) {
-  if (exp > sizeof_to_bits(sizeof(Type))) {
+  if (exp == 0) {
+    // Everything is congruent to 0 modulo 1.
+    to = 0;
+  }
+  else if (exp > sizeof_to_bits(sizeof(Type))) {
     to = x;
   }
   else {
@@ -1494,7 +1498,11 @@ template <typename To_Policy, typename From_Policy, typename Type>
 inline Result
 smod_2exp_signed_int(Type& to, const Type x, unsigned int exp,
                      Rounding_Dir) {
-  if (exp >= sizeof_to_bits(sizeof(Type))) {
+  if (exp == 0) {
+    // Everything is congruent to 0 modulo 1.
+    to = 0;
+  }
+  else if (exp >= sizeof_to_bits(sizeof(Type))) {
     to = x;
   }
   else {
